@@ -597,3 +597,5 @@ CHECKS["C11"]["text"] += (
     " In the storage pipelines a given fluorescence channel count must "
     "survive on a file with one fluorescence feature (the writer completes "
     "it only when missing).")
+CHECKS["C11"]["text"] += (
+    " Representations include the UTF-8 bytes of texts and numeric strings.")
